@@ -50,11 +50,37 @@ func fn(f *ssa.Function) string { return core.FuncName(f) }
 
 // modelOK adds an undecided obligation for every model discovery problem and reports whether
 // the model is usable.
-func modelOK(r *Run, rep *core.Report, rule string) bool {
-	if len(r.M.Problems) == 0 && len(r.M.Maps) == 2 {
+func modelOK(r *Run, rep *core.Report, rule string) bool { return modelOKFor(r, rep, rule, "all") }
+
+// modelOKFor: scope limits which discovery problems matter to a property: "cache" - only the cache layer (problems
+// of the map implementations are not its business), "map0" / "map1" - one map implementation and the shared helpers,
+// "all" - everything. A problem outside the scope is not reported by this property (the properties it concerns do).
+func modelOKFor(r *Run, rep *core.Report, rule, scope string) bool {
+	var probs []string
+	for _, pr := range r.M.Problems {
+		isMap0 := len(r.M.Maps) > 0 && strings.HasPrefix(pr, r.M.Maps[0].Name+": ")
+		isMap1 := len(r.M.Maps) > 1 && strings.HasPrefix(pr, r.M.Maps[1].Name+": ")
+		isCache := !isMap0 && !isMap1 && (strings.Contains(pr, "cache") || strings.Contains(pr, "constructor of") || strings.Contains(pr, "API method") || strings.Contains(pr, "wrapper") || strings.Contains(pr, "interface cache."))
+		switch scope {
+		case "cache":
+			if isMap0 || isMap1 {
+				continue
+			}
+		case "map0":
+			if isMap1 || isCache {
+				continue
+			}
+		case "map1":
+			if isMap0 || isCache {
+				continue
+			}
+		}
+		probs = append(probs, pr)
+	}
+	if len(probs) == 0 && len(r.M.Maps) == 2 {
 		return true
 	}
-	for _, pr := range r.M.Problems {
+	for _, pr := range probs {
 		rep.Undecided(rule, "model/"+pr, "-", "structural anchor not found: "+pr)
 	}
 	if len(r.M.Maps) != 2 {
